@@ -1,8 +1,11 @@
 """C08 (and the journal layer of C06): the REAL `FileJournal` (pysyncobj/journal.py of the tree under
 test) against the Lean model `PSO.Journal` (`driver journal`), op sequence by op sequence, byte for
 byte: after every op len / current offset / commit index / metaSaved, the intercepted primitive
-writes (kind, offset, length, adler32, order), file size + adler32, the full file image (<= 16 KiB:
-every op; always at the end and after a reopen), `.meta` / `.meta.tmp`, the entry list.
+writes (kind, target file, offset, length, adler32, order), file size + adler32, the full file image
+(<= 16 KiB: every op; always at the end and after a reopen), `.meta` / `.meta.tmp`, the head-drop file
+`<journal>.tmp` (size + adler32, bytes), the entry list.  A `crashat` op kills a head drop for real at
+or before its rename and reopens: the stale `<journal>.tmp` it leaves must be ignored by reopen and
+removed by the next head drop, on both sides.
 Independently of the model a monitor checks the property statement itself: the journal returns what a
 plain Python list (and a real `MemoryJournal`) returns, after every op and after both kinds of reopen.
 Order: corpus/journal/*.json, a systematic enumerator of the boundary cases, then the seeded stream.
@@ -75,6 +78,31 @@ def directed_cases():
     case("delto-on-grown", [["add", 1, 1, {"n": 900, "s": 1}], ["add", 2, 1, {"n": 900, "s": 2}], ["add", 3, 1, {"n": 3000, "s": 3}],
                             ["delto", 2], ["reopen", "destroy"], ["addfit", 1, 0, 4, 1, 4], ["delto", 1], ["reopen", "abandon"]])
     case("delto-empty", [["delto", 0], ["delto", 3], ["reopen", "destroy"]])
+    # head drop = new file <journal>.tmp + rename: the file shrinks, the tmp file grows like any journal
+    case("delto-big-grown", [["add", 1, 1, {"n": 40000, "s": 1}], ["add", 2, 1, {"n": 40000, "s": 2}], ["add", 3, 1, {"n": 7, "s": 3}],
+                             ["delto", 2], ["reopen", "destroy"], ["add", 4, 1, {"n": 9, "s": 4}], ["delto", 0], ["reopen", "abandon"]])
+    case("delto-keeps-big", [["add", 1, 1, {"n": 5, "s": 1}], ["add", 2, 1, {"n": 3000, "s": 2}], ["add", 3, 1, {"n": 20000, "s": 3}],
+                             ["delto", 1], ["addfit", 1, 0, 4, 1, 4], ["delto", 1], ["reopen", "destroy"]])
+    case("delto-fit-boundaries", [["add", 1, 1, {"n": 1, "s": 1}], ["add", 2, 1, {"n": 960 - 25, "s": 2}], ["delto", 1], ["reopen", "abandon"],
+                                  ["add", 3, 1, {"n": 0}], ["delto", 1], ["delto", 0], ["reopen", "destroy"]])
+    case("delto-after-reopen", small_adds(6) + [["reopen", "destroy"], ["delto", 2], ["reopen", "abandon"], ["delto", 1], ["delto", 1],
+                                                ["delto", 9], ["add", 1, 1, {"n": 3, "s": 1}], ["reopen", "destroy"]])
+    case("delto-twice", small_adds(8) + [["delto", 3], ["delto", 2], ["delto", 0], ["delto", 3], ["delto", 0], ["reopen", "destroy"]])
+    case("delto-pending-ci", small_adds(4) + [["setci", 3], ["delto", 2], ["timer"], ["reopen", "destroy"], ["setci", 4], ["delto", 1],
+                                              ["reopen", "abandon"]])
+    # a head drop killed at or before its rename leaves a stale <journal>.tmp: reopen ignores it, the next
+    # head drop removes it first (JR); every position of the kill, torn header / record writes included
+    for k, t in ((0, 0), (1, 0), (1, 17), (2, 0), (3, 0), (3, 9), (4, 0), (5, 0), (0.999, 0)):
+        for style in ("destroy", "abandon"):
+            case("stale-tmp-k%s-t%d-%s" % (k, t, style),
+                 small_adds(5) + [["crashat", ["delto", 2], k, t], ["reopen", style], ["add", 9, 2, {"n": 12, "s": 5}],
+                                  ["delfrom_back", 1], ["delto", 1], ["reopen", style], ["delto", 1]])
+    case("stale-tmp-twice", small_adds(5) + [["crashat", ["delto", 2], 0.999, 0], ["crashat", ["delto", 1], 0, 0],
+                                             ["crashat", ["delto", 1], 1, 0], ["crashat", ["delto", 3], 0.999, 0], ["clear"],
+                                             ["reopen", "destroy"], ["delto", 0], ["reopen", "abandon"]])
+    case("stale-tmp-big", [["add", 1, 1, {"n": 3000, "s": 1}], ["add", 2, 1, {"n": 5000, "s": 2}], ["crashat", ["delto", 1], 0.999, 0],
+                           ["timer"], ["setci", 4], ["timer"], ["crashat", ["delto", 1], 0.7, 0.5], ["delto", 1], ["reopen", "destroy"]])
+    case("stale-tmp-empty-journal", [["crashat", ["delto", 0], 0.999, 0], ["reopen", "abandon"], ["delto", 4], ["reopen", "destroy"]])
     # clear
     case("clear-empty", [["clear"], ["clear"], ["reopen", "destroy"], ["add", 1, 1, {"n": 3, "s": 1}]])
     case("clear-nonempty", small_adds(6) + [["clear"], ["reopen", "abandon"], ["add", 7, 2, {"n": 3, "s": 1}], ["clear"],
@@ -186,9 +214,9 @@ def run(ctx):
             n += 1
             r = lib.run_case(jm, model, os.path.join(tmp, "d%d" % n), lib.ListSource(c["ops"]), factory=c["factory"], cov=cov, rng=rng)
             finish(c["name"], r, "directed")
-        n_rand = ctx.scale(120, 8000)
+        n_rand = ctx.scale(60, 7000)
         n_big = ctx.scale(1, 24)
-        budget = ctx.scale(20.0, 230.0)       # safety net only: the counts above are what normally ends the run
+        budget = ctx.scale(24.0, 230.0)       # safety net only: the counts above are what normally ends the run
         done_rand = 0
         for i in range(n_rand):
             if time.time() - t0 > budget or len(out["disagreements"]) >= 3:
@@ -219,6 +247,8 @@ def run(ctx):
     out["wall_s"] = round(time.time() - t0, 2)
     floors = [("add.grow", 5), ("add.nogrow", 5), ("grow.double", 2), ("grow.to_fit", 2), ("add.exact_fill", 2),
               ("delfrom.hdr10", 3), ("reopen.destroy", 5), ("reopen.abandon", 5), ("op.delto", 5), ("op.clear", 3),
+              ("delto.by_rename", 10), ("delto.removes_stale_tmp", 5), ("delto.tmp_grows", 2), ("delto.file_shrinks", 2),
+              ("crashat.leaves_stale_tmp", 5), ("reopen.with_stale_tmp", 5), ("stale_tmp_compared", 10),
               ("timer.saved", 3), ("timer.idle", 2), ("err.structError", 2), ("cmdsize.0", 2), ("cmdsize.>=256K", 1),
               ("add.idx_or_term=2^64-1", 1), ("img_compared", 50), ("ents_compared", 20)]
     missed = ["%s=%d<%d" % (k, cov.get(k, 0), f) for k, f in floors if cov.get(k, 0) < f]
